@@ -537,6 +537,7 @@ func main() {
 	cli.Main(&cli.Property{
 		ID: "C17", Level: "model_checking", Scenarios: scs,
 		QuickBound: 2, ThoroughBound: 3, QuickUnbounded: true, ThoroughUnbounded: true, Cache: true,
+		RaceHB: &cli.RaceHB{QuickBound: 1, ThoroughBound: 2},
 		QuickSecs: 40, ThoroughSecs: 600,
 		Rule: "every interleaving of the scripted threads on the real syncutils code under the controlled scheduler (deviation bound, then all interleavings with happens-before state caching); distinct = distinct (outcome, observation log) pairs",
 		Assumptions: []string{
